@@ -6,19 +6,19 @@ props = [json.loads(l) for l in open(os.path.join(V, "properties.jsonl"))]
 
 TECH = {
  "C01": "proptest over generated (type,value) trees + exhaustive scalars; round-trip oracle across all encode/decode entry points",
- "C02": "proptest + exhaustive u16/i16; differential against a reference encoder written from the wire-format spec",
+ "C02": "proptest + exhaustive u16/i16 + count-boundary sweep; differential against a reference encoder written from the wire-format spec, and against a schema-free wire reference over the recorded serde call tree of every corpus type",
  "C03": "exhaustive short inputs + structured mutation families + proptest; differential against a reference decoder written from the spec",
- "C04": "proptest + adversarial-length mutation with guard pages and a counting allocator; totality / span / allocation-bound oracles",
+ "C04": "proptest + adversarial-length mutation + exhaustive UTF-8 boundary grid with guard pages and a counting allocator (with a ceiling); totality / span / allocation-bound oracles, reader deserializers reused after errors",
  "C05": "proptest x full capacity sweep on guard-paged buffers; threshold oracle against reference outputs",
  "C06": "exhaustive small-alphabet messages + boundary families + proptest; differential against a reference COBS encoder, inverse check",
  "C07": "exhaustive small-alphabet inputs + corruption families + proptest on guard-paged buffers; differential against reference COBS+wire decoders",
  "C08": "model-based testing over operation histories (all chunkings of short streams, all cut pairs, random); reference model + state hook",
  "C09": "model-based testing over operation histories incl. overflow/garbage; history invariants + iteration bound",
  "C10": "proptest + exhaustive bit-flip/burst corruption families; bit-serial reference CRC, converse oracle on every accepted input",
- "C11": "proptest over schedules x fault injection at every offset x every scratch size; slice path as reference",
+ "C11": "proptest over schedules x fault injection (hard, EOF, Interrupted, transient) at every offset x every scratch size x hostile length prefixes, plus a payload-length sweep on the writer side; slice path as reference",
  "C12": "proptest / enumeration of extremes over built-in and derived types; size-bound and tightness oracle",
  "C13": "exhaustive 16-bit + structured + proptest; byte-exact oracle by shifting",
- "C14": "proptest over values of a type corpus; recorded serializer call tree checked against the schema + schema-driven reference reader",
+ "C14": "proptest over values of a type corpus (incl. a second build flavour: postcard-schema with alloc but without use-std, run by the pcv-alloc binary); recorded serializer call tree checked against the schema + schema-driven reference reader",
  "C15": "proptest over schema trees; borrowed/owned differential + independently built expected value",
  "C16": "proptest over schema trees x single-node mutations; const vs run-time hasher vs reference FNV-1a stream",
  "C17": "proptest over JSON-faithful (type,value) pairs; differential against the static encoder and serde_json",
@@ -39,7 +39,7 @@ def main():
      "setup_cmd": "cd /verif && ./tools/setup.sh",
      "hooks": {
        "guard": "cargo feature verif-hooks (crates postcard and postcard-schema)",
-       "enable": "harness/Cargo.toml enables features = [\"verif-hooks\"] on the path dependencies ../../repo/source/postcard and ../../repo/source/postcard-schema; cargo rebuilds them from /repo's working tree on every check",
+       "enable": "harness/Cargo.toml enables features = [\"verif-hooks\"] on the path dependencies ../../repo/source/postcard and ../../repo/source/postcard-schema; every ./check rebuilds them from /repo's working tree (cargo's timestamp rule, plus a sha256 over the crates' sources that forces a rebuild whenever the content differs from the last build)",
        "baseline_off_cmd": "cd /repo && cargo test --workspace --no-fail-fast --offline",
        "source_commits": ["8ff2912", "fd7aa06"],
        "add_only": True,
@@ -47,6 +47,10 @@ def main():
      "engines": [
        {"name": "pcv", "path": "harness", "serves_properties": d,
         "kind_free_text": "Rust binary: proptest strategies, exhaustive enumerators, model-based history drivers, reference implementations (wire codec, COBS, CRC, FNV stream), guard-page buffers, counting allocator; one module per property"},
+       {"name": "pcv-alloc", "path": "harness-alloc", "serves_properties": ["C14"],
+        "kind_free_text": "Rust binary built against postcard-schema with features alloc+derive but without use-std (the configuration that compiles impls/builtins_alloc.rs); proptest + the harness' recording serializer and conformance relation; started by `pcv run C14`"},
+       {"name": "libfuzzer-targets", "path": "fuzz", "serves_properties": ["C03", "C04", "C07", "C08", "C09", "C10", "C15", "C16", "C18", "C19"],
+        "kind_free_text": "cargo-fuzz / libFuzzer targets (ASan) that decode the fuzzer's bytes into structured arguments and run the same oracle functions as the proptest checks; run by fuzz/campaign.py at the end of a clean thorough tier"},
      ],
      "checks": [],
      "notes": "See DESIGN.md. ./check <ID> <quick|thorough> rebuilds the harness against /repo's working tree and runs it; ./check <ID> --replay <file> replays one saved case. Exit 0 ok, 1 VIOLATION, 2 inconclusive.",
